@@ -3,7 +3,7 @@
    (first = interface id), a result is a line of ASCII codes.                  *)
 From Coq Require Import String.
 From MW Require Import Model.Base Model.F64 Model.Num Model.NumFmt Model.Datum Model.Lex Model.Highlight Model.Parse
-  Model.WireNum Model.WireNumFmt Model.WireStr Model.WireLv Model.WireMac Model.WireGc Model.WireVm Model.WireMisc.
+  Model.WireNum Model.WireNumFmt Model.WireStr Model.WireLv Model.WireMac Model.WireGc Model.WireVm Model.WireMisc Model.WireDatum.
 Open Scope N_scope.
 
 
@@ -64,6 +64,7 @@ Definition run_case (c : list N) : list N :=
   | 4 :: t => show_out (show_parse_text t) (parse_text t)
   | 5 :: t => S_ "ALL" ++ parse_all (S (length t)) t []
   | 6 :: _ :: t => show_out (show_parse_text t) (parse_text t)
+  | 7 :: _ | 8 :: _ | 9 :: _ => run_datum c
   | id :: _ =>
       if id <? 10 then S_ "BADCASE"
       else if id <? 20 then run_num c
